@@ -59,6 +59,7 @@ structure Obj where
   rbits : Option Nat
   wbits : Option Nat
   savePos : Option Nat
+  seed : Bool := false                     -- `obj in cache.seeds[pk_attrs]` (known by key only; its real subclass is not known yet)
   deriving DecidableEq, Repr, Inhabited
 
 inductive Kind | scalar | ref | coll
@@ -75,6 +76,7 @@ structure Attr where
   revIsColl : Bool
   revIsPk : Bool
   revBit : Nat
+  refSubclasses : Bool := false    -- reference attribute whose target entity has subclasses (`val._subclasses_`)
   deriving DecidableEq, Repr, Inhabited
 
 structure World where
@@ -88,7 +90,7 @@ inductive Action
   deriving DecidableEq, Repr, Inhabited
 
 inductive Rv
-  | none | int (v : Int) | nat (n : Nat) | bool (b : Bool) | items (l : List Nat) | wrapper | query
+  | none | int (v : Int) | nat (n : Nat) | bool (b : Bool) | items (l : List Nat) | wrapper | query | dots
   deriving DecidableEq, Repr, Inhabited
 
 inductive Out
@@ -121,6 +123,7 @@ inductive Op
   | getAttr (a : Attr)                         -- obj.a                      Attribute.__get__
   | attrLoad (a : Attr)                        -- attr.load(obj)
   | setAttr (a : Attr)                         -- obj.a = v                  Attribute.__set__
+  | attrChanged (a : Attr)                     -- obj._attr_changed_(attr): in-place change of a Json / array value (TrackedValue)
   | setMany                                    -- obj.set(**kw)
   | delete                                     -- obj.delete()
   | flush                                      -- obj.flush()
@@ -137,6 +140,8 @@ inductive Op
   | collContains (a : Attr) (item : Nat)
   | collLoad (a : Attr)
   | collSelect (a : Attr)
+  | collStr (a : Attr)                         -- str(wrapper): '…' instead of the items when the session is over
+  | collCreate (a : Attr)                      -- wrapper.create(**kw): a new item referring to obj
   | useAsRef                                   -- E(ref=obj) for a new object of the current thread
   deriving DecidableEq, Repr, Inhabited
 
@@ -221,7 +226,17 @@ def attrGet (w : World) (o : Obj) (a : Attr) : Out :=
   | none => .sessionOver .readValue
   | some vs =>
     match lookup vs a.id with
-    | some (.val v) => .value (.int v)
+    | some (.val v) =>
+      -- `if val is not None and attr.reverse and val._subclasses_ and val._status_ not in ('deleted', 'cancelled'):
+      --      cache = obj._session_cache_;  if cache is not None and val in cache.seeds[val._pk_attrs_]: val._load_()`
+      if a.refSubclasses then
+        match w.objs[v.toNat]? with
+        | some t =>
+          if !t.status.isGone && o.hasCache && t.seed then
+            (if over w t then .sessionOver .loadObject else .live)
+          else .value (.int v)
+        | none => .value (.int v)
+      else .value (.int v)
     | some .none => .value .none
     | some (.coll _) => .typeError
     | none => attrLoadOut w o
@@ -302,6 +317,9 @@ def step (env : Env) (w : World) (i : Nat) (op : Op) : Res :=
   | .getAttr a => attrGetDescr w i o a
   | .attrLoad _ => ⟨w, attrLoadOut w o, []⟩
   | .setAttr _ =>
+    if over w o then ⟨w, .sessionOver .assign, []⟩ else
+    if o.status.isDel then ⟨w, .wasDeleted, []⟩ else ⟨w, .live, []⟩
+  | .attrChanged _ =>
     if over w o then ⟨w, .sessionOver .assign, []⟩ else
     if o.status.isDel then ⟨w, .wasDeleted, []⟩ else ⟨w, .live, []⟩
   | .setMany =>
@@ -399,6 +417,13 @@ def step (env : Env) (w : World) (i : Nat) (op : Op) : Res :=
   | .collLoad _ => ⟨w, setLoadOut w o, []⟩
   | .collSelect _ =>
     if o.status.isDel then ⟨w, .wasDeleted, []⟩ else ⟨w, .value .query, []⟩
+  | .collStr _ =>
+    -- `if cache is None or not cache.is_alive: content = '...'`
+    if over w o then ⟨w, .value .dots, []⟩ else ⟨w, .live, []⟩
+  | .collCreate _ =>
+    -- `item_type(**kwargs)` with `kwargs[reverse.name] = obj`: the same validate as `E(ref=obj)`
+    if !env.ambient then ⟨w, .dbRequired, []⟩ else
+    if over w o then ⟨w, .mixed, []⟩ else ⟨w, .live, []⟩
   | .useAsRef =>
     -- Attribute.validate for the new object: `cache = entity._database_._get_cache()`; `if cache is not val._session_cache_`
     if !env.ambient then ⟨w, .dbRequired, []⟩ else
@@ -408,7 +433,7 @@ def step (env : Env) (w : World) (i : Nat) (op : Op) : Res :=
 
 /-- assignments, collection changes, deletion -/
 def Op.isMutator : Op → Bool
-  | .setAttr _ | .setMany | .delete | .collAdd _ | .collRemove _ | .collClear _ => true
+  | .setAttr _ | .attrChanged _ | .setMany | .delete | .collAdd _ | .collRemove _ | .collClear _ => true
   | .collAssign _ same => !same
   | _ => false
 
@@ -419,6 +444,7 @@ def Op.isLoad : Op → Bool
 
 def Op.action : Op → Action
   | .setAttr _ => .assign
+  | .attrChanged _ => .assign
   | .setMany => .changeObject
   | .delete => .deleteObject
   | .collAssign _ _ | .collAdd _ | .collRemove _ | .collClear _ => .changeCollection
